@@ -501,6 +501,7 @@ func TestDrive_C11(t *testing.T) {
 			}
 			flagScenarios(rng, n, add)
 		})
+	driveC11Typed(t)
 }
 
 // a retry policy around a rate limiter with a max wait time: attempts refused at once (ErrExceeded), then an attempt
